@@ -1,38 +1,69 @@
 import Nsq.Tie.WireStackTree
 import Nsq.Model.WireStack
-/-! Tie (C07 / C11, audit A2): which transport `SetOutputBuffer` re-creates the writer on.
+/-! Tie (C07 / C11, audit A2): which transport `SetOutputBuffer` re-creates the writer on, and which upgrades drop
+`c.flateWriter`.
 
 Regenerated from nsqd/client_v2.go + protocol_v2.go on every run (`specs/e1_stack.json`). F30 is
-committed (/repo d6aa4e3), so ONLY its shape is accepted (audit B12): `c.outputDest`, which every
+committed (/repo d6aa4e3), so ONLY its shape of `SetOutputBuffer` is accepted (audit B12): `c.outputDest`, which every
 `Upgrade*` sets to the very writer it installs. The shape before it (`bufio.NewWriterSize(c.Conn, …)`:
 the raw connection; `Props.C07Stack.second_identify_leaks_cleartext`) breaks this tie, and the replay
 corpus/C07/fixed/second_identify.stack then reports `second-identify-cleartext` as a VIOLATION.
-`treeFixed` is computed from the facts, `tree_fixed : treeFixed = true`, and
-`Props.C07Stack.this_tree_full` is stated over `trun treeFixed`. The behavioural half is the white-box leg `stack` (harness/e1/stack_test.go)
-and the double-IDENTIFY class of the end-to-end oracle. -/
+
+Round 11 (fix review, F30b): `UpgradeTLS` is accepted in exactly TWO shapes — d6aa4e3 (it leaves `c.flateWriter`
+alone: `Props.C07Stack.output_on_negotiated_transport_k_false`, open finding `tls-after-deflate-garbled`) and
+d6aa4e3 + F30b (`c.flateWriter = nil` in front of the new writer). `tree` is computed from the facts and the driver,
+the harness's expectations and `Props.C07Stack.this_tree_k` follow it.
+**After F30b is committed to /repo**: in `upgrades_shape` and `flate_writers` drop the first disjunct (`tlsF30`, the
+list without `UpgradeTLS`), replace `tree_known` by `tree_is_F30b : tree = treeF30b := by decide`, and discharge the
+hypothesis of `Props.C07Stack.this_tree_k_full` with it.
+The behavioural half is the white-box leg `stack` (harness/e1/reident_test.go) and the multi-IDENTIFY class of the
+end-to-end oracle. -/
 namespace Nsq.Tie.WireStack
-open Nsq.Gen.WireStack
+open Nsq.Gen.WireStack Nsq.Model.WireStack
 
 /-- `SetOutputBuffer`: flush, then a new writer on `outputDest` (F30) — not on the raw connection (`setUnfixed`) -/
 theorem setOutputBuffer_shape : setOutputBufferWriter = setFixed := by decide
 
 theorem tree_fixed : treeFixed = true := by decide
 
-/-- the three upgrades install a new writer on a new transport; in the fixed tree each records that
-very transport in `outputDest` (so `SetOutputBuffer` re-uses it), nothing else assigns `outputDest`, and
-`UpgradeSnappy` drops a deflate writer installed by an earlier IDENTIFY (`Flush` would keep flushing it) -/
+/-- the three upgrades install a new writer on a new transport; each records that very transport in `outputDest`
+(so `SetOutputBuffer` re-uses it), nothing else assigns `outputDest`. TLS always wraps the RAW connection
+(`tls.Server(c.Conn, …)`), snappy / deflate wrap the current TLS session if there is one, the raw connection
+otherwise. `UpgradeDeflate` stores its writer in `c.flateWriter`, `UpgradeSnappy` drops it, `UpgradeTLS` leaves it
+(d6aa4e3) or drops it (F30b). -/
 theorem upgrades_shape :
-    upgradeTLSWriter = ["assign c.outputDest = c.tlsConn",
-                        "assign c.Writer = bufio.NewWriterSize(c.tlsConn, c.OutputBufferSize)"] ∧
-    upgradeSnappyWriter = ["assign sw := snappy.NewWriter(conn)",
+    (upgradeTLSWriter = tlsF30 ∨ upgradeTLSWriter = tlsF30b) ∧
+    upgradeSnappyWriter = ["assign conn := c.Conn",
+                           "if c.tlsConn != nil",
+                           "assign conn = c.tlsConn",
+                           "assign sw := snappy.NewWriter(conn)",
                            "assign c.flateWriter = nil",
                            "assign c.outputDest = sw",
                            "assign c.Writer = bufio.NewWriterSize(sw, c.OutputBufferSize)"] ∧
-    upgradeDeflateWriter = ["assign fw, _ := flate.NewWriter(conn, level)",
+    upgradeDeflateWriter = ["assign conn := c.Conn",
+                            "if c.tlsConn != nil",
+                            "assign conn = c.tlsConn",
+                            "assign fw, _ := flate.NewWriter(conn, level)",
+                            "assign c.flateWriter = fw",
                             "assign c.outputDest = fw",
                             "assign c.Writer = bufio.NewWriterSize(fw, c.OutputBufferSize)"] ∧
     destWrites = [("UpgradeTLS", "assign"), ("UpgradeDeflate", "assign"), ("UpgradeSnappy", "assign")] := by
   decide
+
+/-- `c.flateWriter` is assigned by the upgrades only, and the list agrees with the shape of `UpgradeTLS` -/
+theorem flate_writers :
+    (upgradeTLSWriter = tlsF30 ∧ flateWrites = [("UpgradeDeflate", "assign"), ("UpgradeSnappy", "assign")]) ∨
+    (upgradeTLSWriter = tlsF30b ∧
+      flateWrites = [("UpgradeTLS", "assign"), ("UpgradeDeflate", "assign"), ("UpgradeSnappy", "assign")]) := by
+  decide
+
+/-- `Flush`: the buffered writer, then ALWAYS the flate writer if there is one (the model's `KConn.mark`) -/
+theorem flush_shape :
+    flushBody = ["assign err := c.Writer.Flush()", "if c.flateWriter != nil", "return return c.flateWriter.Flush()"] := by
+  decide
+
+/-- exactly the two trees: d6aa4e3 and d6aa4e3 + F30b -/
+theorem tree_known : tree = treeF30 ∨ tree = treeF30b := by decide
 
 /-- the model's alphabet is complete: `client.Writer` is assigned by these four functions only -/
 theorem writer_writers :
